@@ -124,6 +124,9 @@ where
     F: FxSign,
     W<F>: Mul<<F as Fixed>::Bits, Output = W<F>> + Div<<F as Fixed>::Bits, Output = W<F>> + Rem<<F as Fixed>::Bits, Output = W<F>>,
     W<F>: MulAssign<<F as Fixed>::Bits> + DivAssign<<F as Fixed>::Bits> + RemAssign<<F as Fixed>::Bits>,
+    for<'a> W<F>: Mul<&'a <F as Fixed>::Bits, Output = W<F>> + Div<&'a <F as Fixed>::Bits, Output = W<F>> + Rem<&'a <F as Fixed>::Bits, Output = W<F>>,
+    for<'a> W<F>: MulAssign<&'a <F as Fixed>::Bits> + DivAssign<&'a <F as Fixed>::Bits> + RemAssign<&'a <F as Fixed>::Bits>,
+    for<'a, 'b> &'a W<F>: Mul<&'b <F as Fixed>::Bits, Output = W<F>> + Div<&'b <F as Fixed>::Bits, Output = W<F>> + Rem<&'b <F as Fixed>::Bits, Output = W<F>>,
     for<'a> &'a W<F>: Mul<<F as Fixed>::Bits, Output = W<F>> + Div<<F as Fixed>::Bits, Output = W<F>> + Rem<<F as Fixed>::Bits, Output = W<F>>,
     for<'a> &'a F: Not<Output = F> + Shl<u32, Output = F> + Shr<u32, Output = F>,
     <F as Fixed>::Bits: Copy,
@@ -202,16 +205,26 @@ where
                 let x = reg[a];
                 let nraw = numraw & mask(l.w);
                 let n = || F::int_from_raw(nraw);
-                let r = match (op, form % 3) {
+                // all six spellings: value/ref on either side, assigning by value and by reference
+                let r = match (op, form % 6) {
                     ("mul_int", 0) => cat(|| x * n()),
                     ("mul_int", 1) => cat(|| &x * n()),
-                    ("mul_int", _) => cat(|| { let mut t = x; t *= n(); t }),
+                    ("mul_int", 2) => cat(|| { let mut t = x; t *= n(); t }),
+                    ("mul_int", 3) => cat(|| { let k = n(); x * &k }),
+                    ("mul_int", 4) => cat(|| { let k = n(); &x * &k }),
+                    ("mul_int", _) => cat(|| { let k = n(); let mut t = x; t *= &k; t }),
                     ("div_int", 0) => cat(|| x / n()),
                     ("div_int", 1) => cat(|| &x / n()),
-                    ("div_int", _) => cat(|| { let mut t = x; t /= n(); t }),
+                    ("div_int", 2) => cat(|| { let mut t = x; t /= n(); t }),
+                    ("div_int", 3) => cat(|| { let k = n(); x / &k }),
+                    ("div_int", 4) => cat(|| { let k = n(); &x / &k }),
+                    ("div_int", _) => cat(|| { let k = n(); let mut t = x; t /= &k; t }),
                     ("rem_int", 0) => cat(|| x % n()),
                     ("rem_int", 1) => cat(|| &x % n()),
-                    ("rem_int", _) => cat(|| { let mut t = x; t %= n(); t }),
+                    ("rem_int", 2) => cat(|| { let mut t = x; t %= n(); t }),
+                    ("rem_int", 3) => cat(|| { let k = n(); x % &k }),
+                    ("rem_int", 4) => cat(|| { let k = n(); &x % &k }),
+                    ("rem_int", _) => cat(|| { let k = n(); let mut t = x; t %= &k; t }),
                     ("div_euclid_int", _) => cat(|| x.div_euclid_int(n())),
                     _ => cat(|| x.rem_euclid_int(n())),
                 };
@@ -341,6 +354,9 @@ where
     F: FxSign,
     W<F>: Mul<<F as Fixed>::Bits, Output = W<F>> + Div<<F as Fixed>::Bits, Output = W<F>> + Rem<<F as Fixed>::Bits, Output = W<F>>,
     W<F>: MulAssign<<F as Fixed>::Bits> + DivAssign<<F as Fixed>::Bits> + RemAssign<<F as Fixed>::Bits>,
+    for<'a> W<F>: Mul<&'a <F as Fixed>::Bits, Output = W<F>> + Div<&'a <F as Fixed>::Bits, Output = W<F>> + Rem<&'a <F as Fixed>::Bits, Output = W<F>>,
+    for<'a> W<F>: MulAssign<&'a <F as Fixed>::Bits> + DivAssign<&'a <F as Fixed>::Bits> + RemAssign<&'a <F as Fixed>::Bits>,
+    for<'a, 'b> &'a W<F>: Mul<&'b <F as Fixed>::Bits, Output = W<F>> + Div<&'b <F as Fixed>::Bits, Output = W<F>> + Rem<&'b <F as Fixed>::Bits, Output = W<F>>,
     for<'a> &'a W<F>: Mul<<F as Fixed>::Bits, Output = W<F>> + Div<<F as Fixed>::Bits, Output = W<F>> + Rem<<F as Fixed>::Bits, Output = W<F>>,
     for<'a> &'a F: Not<Output = F> + Shl<u32, Output = F> + Shr<u32, Output = F>,
     <F as Fixed>::Bits: Copy,
@@ -384,13 +400,25 @@ where
             program::<F>(c, &mut rng, Some(&steps));
         }
     }
-    for (oi, op) in BINOPS.iter().chain(INTOPS.iter()).enumerate() {
+    for op in BINOPS.iter().chain(INTOPS.iter()) {
         let mut sel = pairs.clone();
         if sel.len() > keep {
             for i in 0..keep { let j = i + rng.below((sel.len() - i) as u64) as usize; sel.swap(i, j); }
             sel.truncate(keep);
         }
-        for (a, b) in sel {
+        let is_int_op = INTOPS.contains(op);
+        if is_int_op {
+            // the critical corner pairs always, then a sample of the rest
+            sel.truncate(64);
+            let m = mask(l.w);
+            let (mn, mx) = if l.s { (1u128 << (l.w - 1), (1u128 << (l.w - 1)) - 1) } else { (0, m) };
+            let left = [mn, (mn + 1) & m, m, 0, 1, mx, (1u128 << l.f.min(l.w - 1)) & m];
+            let right = [m, 0, 1, 2, mn, mx, 3];
+            for &a in &left { for &b in &right { sel.push((a, b)); } }
+        }
+        for (pi, (a, b)) in sel.into_iter().enumerate() {
+          // integer operands: every one of the six spellings; Wrapping operands: the spellings by turns
+          for fm in (if is_int_op { 0..6u64 } else { (pi as u64 % 6)..(pi as u64 % 6 + 1) }) {
             let sv = |p: u128| -> serde_json::Value {
                 let n = sval(p, l.s, l.w);
                 // script operands are i64: wide patterns are passed through "raw" strings
@@ -398,12 +426,13 @@ where
             };
             let is_int = INTOPS.contains(op);
             let steps = if is_int {
-                vec![serde_json::json!({"op":"load","d":1,"rawv":sv(a)}), serde_json::json!({"op":*op,"d":3,"a":1,"fm":oi % 3,"rawv":sv(b)})]
+                vec![serde_json::json!({"op":"load","d":1,"rawv":sv(a)}), serde_json::json!({"op":*op,"d":3,"a":1,"fm":fm,"rawv":sv(b)})]
             } else {
                 vec![serde_json::json!({"op":"load","d":1,"rawv":sv(a)}), serde_json::json!({"op":"load","d":2,"rawv":sv(b)}),
-                     serde_json::json!({"op":*op,"d":3,"a":1,"b":2,"fm":oi % 6})]
+                     serde_json::json!({"op":*op,"d":3,"a":1,"b":2,"fm":fm})]
             };
             program::<F>(c, &mut rng, Some(&steps));
+          }
         }
     }
 }
